@@ -24,7 +24,8 @@ VERIF = os.path.dirname(HERE)
 SEEDED = os.path.join(VERIF, 'seeded')
 PY = '/venv/bin/python'
 TESTCMD = [PY, '-m', 'pytest', '-q', '-x', '-p', 'no:cacheprovider', '--timeout=900',
-           '--deselect', 'tests/test_outputasync.py::test_executor',
+           '--deselect', 'tests/test_outputasync.py::test_executor', '--deselect', 'test_outputasync.py::test_executor',
+           '--deselect', 'test_outputasync.py::test_executor_args',
            '--deselect', 'tests/test_outputasync.py::test_executor_args', 'tests']
 
 
